@@ -12,8 +12,10 @@ namespace {
 
 bool IsServiceNumeric(std::string const &serv)
 {
-  static std::regex const reNumeric(R"(^\-?\d+$)");
-  return std::regex_match(serv, reNumeric);
+  // same syntax as accepted by getaddrinfo (strtoul): leading blanks and sign
+  // (of the C string that getaddrinfo will be given)
+  static std::regex const reNumeric(R"(^\s*[+\-]?\d+$)");
+  return std::regex_match(serv.c_str(), reNumeric);
 }
 
 void CheckServiceNumericOutOfRange(std::string const &serv)
@@ -58,6 +60,10 @@ struct UriDissect
         hints.ai_flags |= AI_NUMERICSERV;
       } else {
         host = uri;
+        if(IsServiceNumeric(serv)) {
+          // URI of type port://host/path
+          CheckServiceNumericOutOfRange(serv);
+        }
       }
     } else {
       throw std::logic_error("unexpected regex non-match");
